@@ -369,6 +369,32 @@ class Decl(S):
         return '(vardecl %d (pair %d (%s) %s))' % (line, 3 if self.const else 1, ' '.join(ids), es)
 
 
+class DeclBlock(S):
+    """令：  followed by one `names 设为/恒为 expr` line per pair"""
+
+    def __init__(self, pairs):
+        self.pairs = pairs      # [(names, expr, const)]
+
+    def emit(self, r, indent):
+        line = r.line
+        r.w('令：\n')
+        out = []
+        for names, e, const in self.pairs:
+            r.w('    ' * (indent + 1))
+            ids = []
+            for i, n in enumerate(names):
+                if i:
+                    r.w('、')
+                r.w(n)
+                ids.append('(id %d %s)' % (r.line, hx(n)))
+            r.w('恒为' if const else '设为')
+            es = e.emit(r)
+            out.append('(pair %d (%s) %s)' % (3 if const else 1, ' '.join(ids), es))
+            r.w('\n')
+        strip_nl(r)
+        return '(vardecl %d %s)' % (line, ' '.join(out))
+
+
 class If(S):
     def __init__(self, cond, then, elifs=(), els=None):
         self.cond, self.then, self.elifs, self.els = cond, then, list(elifs), els
